@@ -1,9 +1,9 @@
 #!/bin/bash
 # Development tool (not a registered check): run a libFuzzer target of harness/fuzz.
-# usage: tools/fuzz_run.sh <text|bin> <workdir> <seconds> <forks> [extra libFuzzer args]   (build first: tools/fuzz_build.sh)
+# usage: tools/fuzz_run.sh <text|bin|map> <workdir> <seconds> <forks> [extra libFuzzer args]   (build first: tools/fuzz_build.sh)
 t=$1; w=$2; secs=$3; forks=$4; shift 4
 mkdir -p $w/$t/corpus $w/$t/crashes
-extra=""; [ $t = text ] && [ -f $w/dict.txt ] && extra="-dict=$w/dict.txt"
+extra=""; [ $t = text ] && extra="-dict=/verif/tools/fuzz_dict.txt"; [ $t = map ] && extra="-dict=/verif/tools/fuzz_dict_map.txt"
 cd /verif/harness
 RUST_BACKTRACE=0 exec /verif/target/fuzz/x86_64-unknown-linux-gnu/release/fz_$t $w/$t/corpus $w/seeds/$t -fork=$forks -ignore_crashes=1 -ignore_timeouts=1 -ignore_ooms=1 \
   -detect_leaks=0 -timeout=10 -rss_limit_mb=3000 -malloc_limit_mb=512 -max_len=8192 -max_total_time=$secs -artifact_prefix=$w/$t/crashes/ $extra "$@" > $w/$t/log 2>&1
